@@ -1739,8 +1739,12 @@ class TransactionBuilder:
 
         required_vkeys = self._build_required_vkeys()
 
+        signed_vkey_hashes = set()
         for signing_key in set(signing_keys):
             vkey_hash = signing_key.to_verification_key().hash()
+            if vkey_hash in signed_vkey_hashes:
+                # The same key pair given as two key objects must yield one witness
+                continue
             if not force_skeys and vkey_hash not in required_vkeys:
                 logger.warning(
                     f"Verification key hash {vkey_hash} is not required for this tx."
@@ -1750,6 +1754,7 @@ class TransactionBuilder:
             witness_set.vkey_witnesses.append(
                 VerificationKeyWitness(signing_key.to_verification_key(), signature)
             )
+            signed_vkey_hashes.add(vkey_hash)
 
         if len(witness_set.vkey_witnesses) == 0:
             witness_set.vkey_witnesses = None
